@@ -62,8 +62,12 @@ func RunOne(p Profile, verifSeed uint64, i int, opt Options) *RunResult {
 	res := &RunResult{RunIndex: i, RunSeed: seed, Config: c.rc, HealAt: -1}
 	g.RunChaos()
 	if c.viol == nil {
-		res.HealAt = len(c.trace)
-		res.Heal = RunHeal(c, Mix(seed, 0x4ea1))
+		if c.vg != nil {
+			RunFollowerClose(c)
+		} else {
+			res.HealAt = len(c.trace)
+			res.Heal = RunHeal(c, Mix(seed, 0x4ea1))
+		}
 	}
 	finalChecks(c, res)
 	fill(c, res)
